@@ -39,13 +39,13 @@ func run(c *hx.Ctx) error {
 		return replay(c)
 	}
 	var cases []*tcase
-	for i := 0; i < c.N(240, 3000); i++ {
+	for i := 0; i < c.N(200, 3000); i++ {
 		cases = append(cases, &tcase{p: genProg(c.R, i%3 == 2), stream: "uniform"})
 	}
-	for i := 0; i < c.N(600, 6000); i++ {
+	for i := 0; i < c.N(500, 6000); i++ {
 		cases = append(cases, &tcase{p: genGrammar(c.R, i%5 == 4), stream: "grammar"})
 	}
-	every := c.N(64, 6)
+	every := c.N(96, 6)
 	off := int(c.Seed % uint64(every))
 	for i, p := range exhaustivePrograms() {
 		cases = append(cases, &tcase{p: p, stream: "exhaustive", noGc: i%every != off})
